@@ -10,6 +10,7 @@ pub mod w_dns;
 pub mod w_kalman;
 pub mod w_keys;
 pub mod w_ntske;
+pub mod w_ntsked;
 pub mod w_ptp;
 pub mod w_server;
 pub mod w_source;
